@@ -75,7 +75,7 @@ def key_uri(k, with_directives=True):
 
 
 def cache_file_name(k):
-    return "cachefile_" + hashlib.md5(key_uri(k, False).encode()).hexdigest() + "_cachefile"
+    return "cachefile_" + hashlib.md5(key_uri(k, False).encode("utf-8", "surrogateescape")).hexdigest() + "_cachefile"
 
 
 def is_cache_name(name):
@@ -600,7 +600,7 @@ class World:
         if not data.startswith(b"SIM1|"):
             return None
         try:
-            res = data.split(b"|", 2)[1].decode()
+            res = data.split(b"|", 2)[1].decode("utf-8", "surrogateescape")
         except Exception:
             return None
         cands = [k for k in self.current_req if self.keys[k]["res"] == res]
@@ -869,7 +869,7 @@ class World:
             raw = unpostprocess(data)[0]
             if raw.startswith(b"SIM1|"):
                 try:
-                    cur = self.store.current(raw.split(b"|", 2)[1].decode())
+                    cur = self.store.current(raw.split(b"|", 2)[1].decode("utf-8", "surrogateescape"))
                     verdict = cur is not None and raw == cur
                 except Exception:  # noqa: BLE001 - not parseable: accepted, as before
                     pass
@@ -1275,7 +1275,17 @@ class World:
         obs.validator_calls = self.validator_calls[obs.val_from:]
         if self.cache is not None:
             try:
-                obs.in_cache = list(self.cache.in_cache(self.uris)) if self.uris else []
+                if self.knobs.get("undecodable_names"):
+                    # uris that are not valid Unicode are asked about one by one: a cache that refuses them
+                    # (UnicodeEncodeError) does not hold them
+                    obs.in_cache = []
+                    for u in self.uris:
+                        try:
+                            obs.in_cache.append(bool(self.cache.in_cache([u])[0]))
+                        except UnicodeEncodeError:
+                            obs.in_cache.append(False)
+                else:
+                    obs.in_cache = list(self.cache.in_cache(self.uris)) if self.uris else []
                 obs.length = len(self.cache)
                 obs.max_bytes = self.cache.config.max_size_bytes
             except Exception as e:  # observation must not fail silently
@@ -1581,7 +1591,7 @@ class World:
             for ev in self.sched.log:
                 h.update(repr(ev).encode())
         for p, kind, size, at, mt, data, _ino, _gen in self.fs.h_tree("/SIMFS"):
-            h.update(("%s|%s|%d|%d|%d|" % (p, kind, size, at, mt)).encode())
+            h.update(("%s|%s|%d|%d|%d|" % (p, kind, size, at, mt)).encode("utf-8", "surrogateescape"))
             h.update(hashlib.md5(data).digest())
         h.update(repr(self.violation[:2] if self.violation else None).encode())
         return h.hexdigest()
